@@ -132,6 +132,10 @@ class Canon(ast.NodeTransformer):
         return n
 
 
+# ast reuses one instance of these per interpreter: never hang per-tree attributes on them
+_SINGLETONS = (ast.expr_context, ast.operator, ast.unaryop, ast.cmpop, ast.boolop)
+
+
 class Module:
     def __init__(self, name, path, relpath, source):
         self.name = name
@@ -262,7 +266,8 @@ class Repo:
             self.modules[modname] = mod
             for n in ast.walk(mod.tree):
                 for c in ast.iter_child_nodes(n):
-                    c._parent = n
+                    if not isinstance(c, _SINGLETONS):
+                        c._parent = n
             mod.tree._parent = None
             self._index_module(mod)
 
@@ -303,7 +308,8 @@ class Repo:
             else:
                 mod.functions[node.name] = f
             for n in ast.walk(node):
-                n._func = getattr(n, "_func", None) or None
+                if not isinstance(n, _SINGLETONS):
+                    n._func = getattr(n, "_func", None) or None
             for sub in self._nested_defs(node):
                 self._index_stmt(sub, mod, None, f, qn)
         elif isinstance(node, ast.ClassDef):
@@ -379,7 +385,8 @@ class Repo:
         # owner function of every node
         for f in self.functions.values():
             for n in walk_shallow(f.node):
-                n._func = f
+                if not isinstance(n, _SINGLETONS):
+                    n._func = f
             f.node._func_self = f
         self._propagate_new_aliases()
 
@@ -485,9 +492,11 @@ class Repo:
                     del body[idx]
                     for n in ast.walk(f.node):
                         for c in ast.iter_child_nodes(n):
-                            c._parent = n
+                            if not isinstance(c, _SINGLETONS):
+                                c._parent = n
                     for n in walk_shallow(f.node):
-                        n._func = f
+                        if not isinstance(n, _SINGLETONS):
+                            n._func = f
                     self._calls_cache.pop(f.qualname, None)
                     self._callers = None
                     self.propagated_aliases.append((f.qualname, norm(st)))
